@@ -151,11 +151,10 @@ type c03Env struct {
 func newC03Env(c *CfgSpec) (*c03Env, error) {
 	e := &c03Env{spec: c, sem: c.Sem()}
 	for d := 0; d < 2; d++ {
-		mw, err := newMiddlewareVia(c.Config(), int(hashString(specKey(c)))&7+d+1)
+		mw, err := newMiddlewareViaDbg(c.Config(), int(hashString(specKey(c))>>3&0xffff)+5*d+1, d == 1)
 		if err != nil {
 			return nil, err
 		}
-		mw.SetDebug(d == 1)
 		e.mw[d] = mw
 	}
 	inst := allowedInstances(e.sem.Pats)
